@@ -341,6 +341,13 @@ class Interp:
             b = st.load(args[0]); st.ev(kind='FREE', loc=('blk', b.root[1])); return cont(st, Opaque('unit'))
         if n.endswith('process::abort') or n == 'abort': st.ev(kind='ABORT'); raise PathEnd('abort')
         if n.endswith('mem::forget'): return cont(st, Opaque('unit'))
+        if n.endswith('mem::replace'):
+            old = copy.deepcopy(st.load(args[0])); st.store(args[0], args[1]); return cont(st, old)
+        if n.endswith('mem::swap'):
+            a, b = copy.deepcopy(st.load(args[0])), copy.deepcopy(st.load(args[1])); st.store(args[0], b); st.store(args[1], a); return cont(st, Opaque('unit'))
+        if n.endswith('ptr::read'): return cont(st, copy.deepcopy(st.load(args[0])))
+        if n.endswith('ptr::write'):
+            st.store(args[0], args[1]); return cont(st, Opaque('unit'))
         if re.search(r'mem::(size_of|align_of|size_of_val|align_of_val)$', n): return cont(st, st.fresh('layout'))  # unknown property of the payload type
         if n == 'Result::map':
             r, fn = args
